@@ -47,7 +47,7 @@ type Loader struct {
 
 	visitedRefs map[string]struct{}
 	visitedPath []string
-	backtrack   map[string][]func(value any)
+	backtrack   map[string][]func(value any) error
 }
 
 // NewLoader returns an empty Loader
@@ -61,7 +61,7 @@ func (loader *Loader) resetVisitedPathItemRefs() {
 	loader.visitedPathItemRefs = make(map[string]struct{})
 	loader.visitedRefs = make(map[string]struct{})
 	loader.visitedPath = nil
-	loader.backtrack = make(map[string][]func(value any))
+	loader.backtrack = make(map[string][]func(value any) error)
 }
 
 // LoadFromURI loads a spec from a remote URL
@@ -331,24 +331,29 @@ func isSingleRefElement(ref string) bool {
 func (loader *Loader) visitRef(ref string) {
 	if loader.visitedRefs == nil {
 		loader.visitedRefs = make(map[string]struct{})
-		loader.backtrack = make(map[string][]func(value any))
+		loader.backtrack = make(map[string][]func(value any) error)
 	}
 	loader.visitedPath = append(loader.visitedPath, ref)
 	loader.visitedRefs[ref] = struct{}{}
 }
 
-func (loader *Loader) unvisitRef(ref string, value any) {
+// unvisitRef hands the resolved value to every position that met ref while it was being resolved.
+// It fails when one of them expects a value of another kind.
+func (loader *Loader) unvisitRef(ref string, value any) (err error) {
 	if value != nil {
 		for _, fn := range loader.backtrack[ref] {
-			fn(value)
+			if e := fn(value); e != nil && err == nil {
+				err = e
+			}
 		}
 	}
 	delete(loader.visitedRefs, ref)
 	delete(loader.backtrack, ref)
 	loader.visitedPath = loader.visitedPath[:len(loader.visitedPath)-1]
+	return err
 }
 
-func (loader *Loader) shouldVisitRef(ref string, fn func(value any)) bool {
+func (loader *Loader) shouldVisitRef(ref string, fn func(value any) error) bool {
 	if _, ok := loader.visitedRefs[ref]; ok {
 		loader.backtrack[ref] = append(loader.backtrack[ref], fn)
 		return false
@@ -656,10 +661,15 @@ func (loader *Loader) resolveHeaderRef(doc *T, component *HeaderRef, documentPat
 		if component.Value != nil {
 			return nil
 		}
-		if !loader.shouldVisitRef(ref, func(value any) {
-			component.Value = value.(*Header)
+		if !loader.shouldVisitRef(ref, func(value any) error {
+			v, ok := value.(*Header)
+			if !ok {
+				return fmt.Errorf("bad data in %q (expecting %s)", ref, readableType(component))
+			}
+			component.Value = v
 			refPath, _ := loader.resolveRefPath(ref, documentPath)
 			component.setRefPath(refPath)
+			return nil
 		}) {
 			return nil
 		}
@@ -686,7 +696,11 @@ func (loader *Loader) resolveHeaderRef(doc *T, component *HeaderRef, documentPat
 			component.Value = resolved.Value
 			component.setRefPath(resolved.RefPath())
 		}
-		defer loader.unvisitRef(ref, component.Value)
+		defer func(value any) {
+			if e := loader.unvisitRef(ref, value); e != nil && err == nil {
+				err = e
+			}
+		}(component.Value)
 	}
 	value := component.Value
 	if value == nil {
@@ -719,10 +733,15 @@ func (loader *Loader) resolveParameterRef(doc *T, component *ParameterRef, docum
 		if component.Value != nil {
 			return nil
 		}
-		if !loader.shouldVisitRef(ref, func(value any) {
-			component.Value = value.(*Parameter)
+		if !loader.shouldVisitRef(ref, func(value any) error {
+			v, ok := value.(*Parameter)
+			if !ok {
+				return fmt.Errorf("bad data in %q (expecting %s)", ref, readableType(component))
+			}
+			component.Value = v
 			refPath, _ := loader.resolveRefPath(ref, documentPath)
 			component.setRefPath(refPath)
+			return nil
 		}) {
 			return nil
 		}
@@ -749,7 +768,11 @@ func (loader *Loader) resolveParameterRef(doc *T, component *ParameterRef, docum
 			component.Value = resolved.Value
 			component.setRefPath(resolved.RefPath())
 		}
-		defer loader.unvisitRef(ref, component.Value)
+		defer func(value any) {
+			if e := loader.unvisitRef(ref, value); e != nil && err == nil {
+				err = e
+			}
+		}(component.Value)
 	}
 	value := component.Value
 	if value == nil {
@@ -785,10 +808,15 @@ func (loader *Loader) resolveRequestBodyRef(doc *T, component *RequestBodyRef, d
 		if component.Value != nil {
 			return nil
 		}
-		if !loader.shouldVisitRef(ref, func(value any) {
-			component.Value = value.(*RequestBody)
+		if !loader.shouldVisitRef(ref, func(value any) error {
+			v, ok := value.(*RequestBody)
+			if !ok {
+				return fmt.Errorf("bad data in %q (expecting %s)", ref, readableType(component))
+			}
+			component.Value = v
 			refPath, _ := loader.resolveRefPath(ref, documentPath)
 			component.setRefPath(refPath)
+			return nil
 		}) {
 			return nil
 		}
@@ -815,7 +843,11 @@ func (loader *Loader) resolveRequestBodyRef(doc *T, component *RequestBodyRef, d
 			component.Value = resolved.Value
 			component.setRefPath(resolved.RefPath())
 		}
-		defer loader.unvisitRef(ref, component.Value)
+		defer func(value any) {
+			if e := loader.unvisitRef(ref, value); e != nil && err == nil {
+				err = e
+			}
+		}(component.Value)
 	}
 	value := component.Value
 	if value == nil {
@@ -834,10 +866,15 @@ func (loader *Loader) resolveResponseRef(doc *T, component *ResponseRef, documen
 		if component.Value != nil {
 			return nil
 		}
-		if !loader.shouldVisitRef(ref, func(value any) {
-			component.Value = value.(*Response)
+		if !loader.shouldVisitRef(ref, func(value any) error {
+			v, ok := value.(*Response)
+			if !ok {
+				return fmt.Errorf("bad data in %q (expecting %s)", ref, readableType(component))
+			}
+			component.Value = v
 			refPath, _ := loader.resolveRefPath(ref, documentPath)
 			component.setRefPath(refPath)
+			return nil
 		}) {
 			return nil
 		}
@@ -864,7 +901,11 @@ func (loader *Loader) resolveResponseRef(doc *T, component *ResponseRef, documen
 			component.Value = resolved.Value
 			component.setRefPath(resolved.RefPath())
 		}
-		defer loader.unvisitRef(ref, component.Value)
+		defer func(value any) {
+			if e := loader.unvisitRef(ref, value); e != nil && err == nil {
+				err = e
+			}
+		}(component.Value)
 	}
 	value := component.Value
 	if value == nil {
@@ -898,10 +939,15 @@ func (loader *Loader) resolveSchemaRef(doc *T, component *SchemaRef, documentPat
 		if component.Value != nil {
 			return nil
 		}
-		if !loader.shouldVisitRef(ref, func(value any) {
-			component.Value = value.(*Schema)
+		if !loader.shouldVisitRef(ref, func(value any) error {
+			v, ok := value.(*Schema)
+			if !ok {
+				return fmt.Errorf("bad data in %q (expecting %s)", ref, readableType(component))
+			}
+			component.Value = v
 			refPath, _ := loader.resolveRefPath(ref, documentPath)
 			component.setRefPath(refPath)
+			return nil
 		}) {
 			return nil
 		}
@@ -928,7 +974,11 @@ func (loader *Loader) resolveSchemaRef(doc *T, component *SchemaRef, documentPat
 			component.Value = resolved.Value
 			component.setRefPath(resolved.RefPath())
 		}
-		defer loader.unvisitRef(ref, component.Value)
+		defer func(value any) {
+			if e := loader.unvisitRef(ref, value); e != nil && err == nil {
+				err = e
+			}
+		}(component.Value)
 	}
 	value := component.Value
 	if value == nil {
@@ -984,10 +1034,15 @@ func (loader *Loader) resolveSecuritySchemeRef(doc *T, component *SecurityScheme
 		if component.Value != nil {
 			return nil
 		}
-		if !loader.shouldVisitRef(ref, func(value any) {
-			component.Value = value.(*SecurityScheme)
+		if !loader.shouldVisitRef(ref, func(value any) error {
+			v, ok := value.(*SecurityScheme)
+			if !ok {
+				return fmt.Errorf("bad data in %q (expecting %s)", ref, readableType(component))
+			}
+			component.Value = v
 			refPath, _ := loader.resolveRefPath(ref, documentPath)
 			component.setRefPath(refPath)
+			return nil
 		}) {
 			return nil
 		}
@@ -1014,7 +1069,11 @@ func (loader *Loader) resolveSecuritySchemeRef(doc *T, component *SecurityScheme
 			component.Value = resolved.Value
 			component.setRefPath(resolved.RefPath())
 		}
-		defer loader.unvisitRef(ref, component.Value)
+		defer func(value any) {
+			if e := loader.unvisitRef(ref, value); e != nil && err == nil {
+				err = e
+			}
+		}(component.Value)
 	}
 	return nil
 }
@@ -1024,10 +1083,15 @@ func (loader *Loader) resolveExampleRef(doc *T, component *ExampleRef, documentP
 		if component.Value != nil {
 			return nil
 		}
-		if !loader.shouldVisitRef(ref, func(value any) {
-			component.Value = value.(*Example)
+		if !loader.shouldVisitRef(ref, func(value any) error {
+			v, ok := value.(*Example)
+			if !ok {
+				return fmt.Errorf("bad data in %q (expecting %s)", ref, readableType(component))
+			}
+			component.Value = v
 			refPath, _ := loader.resolveRefPath(ref, documentPath)
 			component.setRefPath(refPath)
+			return nil
 		}) {
 			return nil
 		}
@@ -1054,7 +1118,11 @@ func (loader *Loader) resolveExampleRef(doc *T, component *ExampleRef, documentP
 			component.Value = resolved.Value
 			component.setRefPath(resolved.RefPath())
 		}
-		defer loader.unvisitRef(ref, component.Value)
+		defer func(value any) {
+			if e := loader.unvisitRef(ref, value); e != nil && err == nil {
+				err = e
+			}
+		}(component.Value)
 	}
 	return nil
 }
@@ -1068,10 +1136,15 @@ func (loader *Loader) resolveCallbackRef(doc *T, component *CallbackRef, documen
 		if component.Value != nil {
 			return nil
 		}
-		if !loader.shouldVisitRef(ref, func(value any) {
-			component.Value = value.(*Callback)
+		if !loader.shouldVisitRef(ref, func(value any) error {
+			v, ok := value.(*Callback)
+			if !ok {
+				return fmt.Errorf("bad data in %q (expecting %s)", ref, readableType(component))
+			}
+			component.Value = v
 			refPath, _ := loader.resolveRefPath(ref, documentPath)
 			component.setRefPath(refPath)
+			return nil
 		}) {
 			return nil
 		}
@@ -1098,7 +1171,11 @@ func (loader *Loader) resolveCallbackRef(doc *T, component *CallbackRef, documen
 			component.Value = resolved.Value
 			component.setRefPath(resolved.RefPath())
 		}
-		defer loader.unvisitRef(ref, component.Value)
+		defer func(value any) {
+			if e := loader.unvisitRef(ref, value); e != nil && err == nil {
+				err = e
+			}
+		}(component.Value)
 	}
 	value := component.Value
 	if value == nil {
@@ -1124,10 +1201,15 @@ func (loader *Loader) resolveLinkRef(doc *T, component *LinkRef, documentPath *u
 		if component.Value != nil {
 			return nil
 		}
-		if !loader.shouldVisitRef(ref, func(value any) {
-			component.Value = value.(*Link)
+		if !loader.shouldVisitRef(ref, func(value any) error {
+			v, ok := value.(*Link)
+			if !ok {
+				return fmt.Errorf("bad data in %q (expecting %s)", ref, readableType(component))
+			}
+			component.Value = v
 			refPath, _ := loader.resolveRefPath(ref, documentPath)
 			component.setRefPath(refPath)
+			return nil
 		}) {
 			return nil
 		}
@@ -1154,7 +1236,11 @@ func (loader *Loader) resolveLinkRef(doc *T, component *LinkRef, documentPath *u
 			component.Value = resolved.Value
 			component.setRefPath(resolved.RefPath())
 		}
-		defer loader.unvisitRef(ref, component.Value)
+		defer func(value any) {
+			if e := loader.unvisitRef(ref, value); e != nil && err == nil {
+				err = e
+			}
+		}(component.Value)
 	}
 	return nil
 }
@@ -1169,8 +1255,13 @@ func (loader *Loader) resolvePathItemRef(doc *T, pathItem *PathItem, documentPat
 		if !pathItem.isEmpty() {
 			return
 		}
-		if !loader.shouldVisitRef(ref, func(value any) {
-			*pathItem = *value.(*PathItem)
+		if !loader.shouldVisitRef(ref, func(value any) error {
+			v, ok := value.(*PathItem)
+			if !ok {
+				return fmt.Errorf("bad data in %q (expecting %s)", ref, readableType(pathItem))
+			}
+			*pathItem = *v
+			return nil
 		}) {
 			return nil
 		}
@@ -1192,7 +1283,11 @@ func (loader *Loader) resolvePathItemRef(doc *T, pathItem *PathItem, documentPat
 			*pathItem = resolved
 		}
 		pathItem.Ref = ref
-		defer loader.unvisitRef(ref, pathItem)
+		defer func(value any) {
+			if e := loader.unvisitRef(ref, value); e != nil && err == nil {
+				err = e
+			}
+		}(pathItem)
 	}
 
 	for _, parameter := range pathItem.Parameters {
